@@ -4,6 +4,8 @@ From Coq Require Import List NArith ZArith.
 From Coq.Strings Require Import Byte.
 From SP Require Import Bytes Params Msgpack Crypto Errors Packets Chunker Rand Sign Verify Encrypt Decrypt Signcrypt
      SignProofs EncryptProofs GateProofs.
+From SP Require Import GoLang GoAst GoAstProofs.
+From Coq Require String.
 Import ListNotations.
 
 (* ---- receivers: a successful header phase implies format name "saltpack", a version the
@@ -69,6 +71,41 @@ Proof. exact (seal_unknown_version c v sender rcpts pieces r). Qed.
 Theorem C17_known_versions : known_versions = [v1; v2] /\ known_version (mkV 3 0) = false /\ known_version (mkV 2 1) = false.
 Proof. vm_compute. repeat split. Qed.
 
+(* SOURCE TIE: the term f_saltpack_{checkKnownVersion, CheckKnownMajorVersion, *Header_validate} is generated on every run from the Go syntax tree of
+   /repo's version gates and header validation (harness/cmd/gen/goast.go); under the Go semantics of model/GoLang.v it computes
+   exactly what the model says, for ALL arguments.  An edit of that function in /repo changes
+   the term and this theorem has to be re-established. *)
+Theorem C17_source_checkKnownVersion (v : version) :
+  g_result1 (run_func ext_versions f_saltpack_checkKnownVersion [g_version v])
+  = if existsb (version_eqb v) known_versions then GOk else GErr ErrBadVersion.
+Proof. exact (go_checkKnownVersion v). Qed.
+
+Theorem C17_source_CheckKnownMajorVersion (v : version) :
+  g_result1 (run_func ext_versions f_saltpack_CheckKnownMajorVersion [g_version v])
+  = if validate_version AnyKnownMajor v then GOk else GErr ErrBadVersion.
+Proof. exact (go_CheckKnownMajorVersion v). Qed.
+
+Theorem C17_source_EncryptionHeader_validate (vd : validator) (h : header) :
+  g_result1 (run_func (ext_validator vd) f_saltpack_EncryptionHeader_validate [g_header h; VNil])
+  = m_result1 (validate_enc_header vd h).
+Proof. exact (go_EncryptionHeader_validate vd h). Qed.
+
+Theorem C17_source_SigncryptionHeader_validate (h : header) :
+  g_result1 (run_func ext_versions f_saltpack_SigncryptionHeader_validate [g_header h])
+  = m_result1 (validate_sc_header h).
+Proof. exact (go_SigncryptionHeader_validate h). Qed.
+
+Theorem C17_source_SignatureHeader_validate (vd : validator) (typ : Z) (h : header) :
+  typ = mt_attached \/ typ = mt_detached ->
+  g_result1 (run_func (ext_validator vd) f_saltpack_SignatureHeader_validate [g_header h; VNil; VInt typ])
+  = m_result1 (validate_sig_header vd typ h).
+Proof. exact (go_SignatureHeader_validate vd typ h). Qed.
+
+Print Assumptions C17_source_checkKnownVersion.
+Print Assumptions C17_source_CheckKnownMajorVersion.
+Print Assumptions C17_source_EncryptionHeader_validate.
+Print Assumptions C17_source_SigncryptionHeader_validate.
+Print Assumptions C17_source_SignatureHeader_validate.
 Print Assumptions C17_gate_verify.
 Print Assumptions C17_gate_verify_detached.
 Print Assumptions C17_gate_open.
